@@ -96,6 +96,14 @@ def gen_cases(ctx):
                         add('bucket', 'bucket_moved', lt, pol, mx, s); add('bucket', 'bucket_assigned', lt, pol, mx, s)
                     if mx == 64:
                         add('bucket', 'bucket_static', lt, pol, mx, s)
+    # log2 buckets for maxima beyond 2^31 (sampled sizes around every power of two): the index arithmetic is 64-bit
+    for lt in (0, 1, 2):
+        for mx in (2 ** 31, 2 ** 32 + 5, 2 ** 40):
+            add('bucket', 'bucket_max', lt, 1, mx, 0)
+            for k in range(3, mx.bit_length()):
+                for s in (2 ** k - 1, 2 ** k, 2 ** k + 1):
+                    if 1 <= s <= mx:
+                        add('bucket', 'bucket', lt, 1, mx, s)
     return cases, classes
 
 
